@@ -129,9 +129,10 @@ func propSpecs() map[string]*PropSpec {
 		"C10": {ID: "C10", Kinds: []string{"POST"}, FuncMatch: regexp.MustCompile(`parser\.FormatPacketDsl$`),
 			Own:     func(o *Obligation) bool { return strings.Contains(o.Name, "C09:error") },
 			Standin: []string{"idempotent", "relayout"},
-			Decided: []string{"(supporting) error path of FormatPacketDsl"},
+			Extra:   func(e *Engine) []*Obligation { return e.layoutObligations() },
+			Decided: []string{"layout independence for all inputs: every formatter function observes its input only through token text / type / index, tree accessors, hidden-channel queries and equality of two token lines (LAYOUT, per function, decided on the SSA); with the trusted lexer fact that white space is skipped, two texts with the same tokens and the same comment-on-the-line-of-the-same-token relation give the formatter nothing to tell them apart", "(supporting) error path of FormatPacketDsl"},
 			Bounded: []string{"BOUNDED (not counted as proved): on the same enumerated corpus format(format(x)) == format(x), and two token-aware whitespace re-layouts of x (every gap one blank / one line break; gaps widened with tabs, blanks and blank lines; comments stay on the line of the same token) format to the same text"},
-			OutOfReach: []string{"idempotence and layout-independence for all inputs: they need the lexer's behaviour on the emitted text, which no contract on the Go functions can state"}},
+			OutOfReach: []string{"idempotence for all inputs: it needs the lexer's behaviour on the emitted text, which no contract on the Go functions can state"}},
 		"C13": {ID: "C13", Kinds: []string{"DET"}, FuncMatch: all,
 			Own:     func(o *Obligation) bool { return o.Kind == "DET" },
 			Decided: []string{"no call to an impure source (time, rand, environment) in any function of model, parser, cmd", "every effect of a `range` over a map that is visible outside the iteration commutes with the same effect for any other key (map updates: distinct keys or equal values; builder appends: equal text; stores: equal values; file-system effects: distinct paths; loop-carried variables: commutative update, or the collect-keys-then-sort idiom)"},
